@@ -26,6 +26,9 @@ def load_known_findings(prop):
 
 def write_evidence(prop, tier, seed, level, coverage, assumptions, wall, violations):
     d = os.path.join(VERIF, 'evidence')
+    if os.path.realpath(GLUE_SRC) != os.path.realpath('/repo'):
+        # runs against a patched scratch copy (selftest / tools_mutant.sh) must never overwrite the evidence of /repo
+        d = os.path.join(VERIF, '.gen', 'evidence-scratch')
     os.makedirs(d, exist_ok=True)
     ev = dict(property_id=prop, tier=tier, seed=seed, level=level, coverage=coverage,
               assumptions=assumptions, wall_s=round(wall, 2), violations=violations)
